@@ -182,6 +182,34 @@ class TraceDir:
         return out
 
 
+_TIMEOUTS = [0]
+
+
+class Timeout(Exception):
+    """the implementation did not return within the budget (error kind 'Timeout')"""
+
+
+@contextlib.contextmanager
+def time_limit(seconds):
+    """Bound one implementation call: a non-terminating loop (e.g. complete_ensemble_sift on a mutated
+    tree) becomes error kind 'Timeout'. The interrupted call's pool is left to its own finalizer (terminating
+    workers by hand can poison the pool's queue locks)."""
+    import signal
+    if _TIMEOUTS[0] >= 2:          # after two timeouts in this process: keep shrinking a non-terminating case cheap
+        seconds = min(seconds, 4)
+
+    def handler(signum, frame):
+        _TIMEOUTS[0] += 1
+        raise Timeout('no result after %ss' % seconds)
+    old = signal.signal(signal.SIGALRM, handler)
+    signal.setitimer(signal.ITIMER_REAL, seconds)
+    try:
+        yield
+    finally:
+        signal.setitimer(signal.ITIMER_REAL, 0)
+        signal.signal(signal.SIGALRM, old)
+
+
 def jitter():
     time.sleep((os.urandom(1)[0] % 5) * 0.0004)
 
